@@ -42,9 +42,11 @@ def configs(name, rng, d, n_classes, thorough):
         for init in inits:
             for nc in ncs:
                 k = d if nc is None else nc
-                if init == 'lda' and k > min(d, n_classes - 1):
-                    continue
                 p = {'init': init, 'n_components': nc}
+                if init == 'lda' and k > min(d, n_classes - 1):
+                    # more rows asked for than LDA has discriminative directions: the documentation (zero rows) and the code
+                    # (ValueError from the shape check) disagree; what must never happen is a transformation of another shape
+                    p['_may_reject'] = True
                 if init == 'array':
                     p['init'] = rng.randn(k, d) if rng.rand() < 0.7 else rng.randint(-3, 4, size=(k, d)) + np.eye(k, d, dtype=int) * 5
                 out.append(p)
@@ -160,8 +162,9 @@ def run(R, tier, seed, driver_ok):
                 cfgs = [cfgs[i] for i in sorted(keep)]
             for cfg in cfgs:
                 label = name
-                desc = {k: (v if not isinstance(v, np.ndarray) else f'array{v.shape}') for k, v in cfg.items()}
+                desc = {k: (v if not isinstance(v, np.ndarray) else f'array{v.shape}') for k, v in cfg.items() if not k.startswith('_')}
                 case = {'est': name, 'params': desc, 'X': X, 'y': y}
+                may_reject = bool(cfg.pop('_may_reject', False))
                 p = zoo.default_params(name, rng, dd)
                 p.update(cfg)
                 p = zoo.fix_params(name, p, X, y)
@@ -179,6 +182,9 @@ def run(R, tier, seed, driver_ok):
                     if name.startswith('SDML') and isinstance(e, RuntimeError):
                         # the documented failure clause of SDML (C13): the graphical-lasso solver could not produce a finite SPD matrix
                         R.count('SDML-solver-failure (RuntimeError, judged by C13)')
+                        continue
+                    if may_reject and isinstance(e, ValueError):
+                        R.count('lda-init-overask-rejected (ValueError)')
                         continue
                     R.violation(f'{name}/fit-raises/{type(e).__name__}', f'{name}({desc}).fit raised {type(e).__name__}: {str(e)[:200]}', case)
                     continue
